@@ -98,7 +98,8 @@ static bool h_asdu(void* p, IMasterConnection c, CS101_ASDU a) { touch_asdu(a, "
 static bool m_asdu(void* p, int addr, CS101_ASDU a) { touch_asdu(a, "master ASDU-received handler"); sink += addr; return true; }
 static bool c_asdu(void* p, int addr, CS101_ASDU a) { touch_asdu(a, "client ASDU-received handler"); sink += addr; return true; }
 static void c_conn(void* p, CS104_Connection c, CS104_ConnectionEvent e) { sink += (int) e; n_cb++; }
-static void s_event(void* p, IMasterConnection c, CS104_PeerConnectionEvent e) { sink += (int) e; n_cb++; if (!c) fail("NULLCB", "connection event handler received a NULL connection"); }
+static long n_opened_ev = 0, n_closed_ev = 0;
+static void s_event(void* p, IMasterConnection c, CS104_PeerConnectionEvent e) { sink += (int) e; n_cb++; if (e == CS104_CON_EVENT_CONNECTION_OPENED) n_opened_ev++; if (e == CS104_CON_EVENT_CONNECTION_CLOSED) n_closed_ev++; if (!c) fail("NULLCB", "connection event handler received a NULL connection"); }
 static bool s_request(void* p, const char* ip) { if (!ip) { fail("NULLCB", "connection request handler received a NULL address"); return true; } sink += strlen(ip); return prng_below(10) != 0; }
 static void ll_state(void* p, int address, LinkLayerState s) { sink += address + (int) s; n_cb++; }
 
@@ -177,8 +178,16 @@ static void episode_srv(bool thorough)
             if (n > 0) { char h[64]; hexs(h, f, n > 20 ? 20 : n); fail("SHORT", "a %d-octet frame (shorter than the APCI) was answered with %s", SHN[k], h); }
             sim_peer_close(p); srv_tick(1); continue; }
         else { /* probe: a fresh, well-behaved connection must still be served */
-            n_probe++; oplog("probe", 0, NULL, 0); SimSocket* p = sim_incoming("10.0.0.9"); if (!p) { n_probe--; continue; } srv_tick(1); int fn = frame_u(f, 0x43); sim_feed(p, f, fn); srv_tick(1);
-            if (p->open && !has_frame(p, 0x83)) fail("STARVED", "a new connection was accepted but its TESTFR act was not answered (open connections %d)", CS104_Slave_getOpenConnections(slave)); else n_probe_ok++;
+            n_probe++; oplog("probe", 0, NULL, 0); SimSocket* p = sim_incoming("10.0.0.9"); if (!p) { n_probe--; continue; }
+            long opened0 = n_opened_ev; srv_tick(1); int admitted = n_opened_ev > opened0;   /* refused connections (limit, groups, request handler) never report OPENED */
+            int fn = frame_u(f, 0x43); sim_feed(p, f, fn); srv_tick(1);
+            if (p->open && !has_frame(p, 0x83)) fail("STARVED", "a new connection was accepted but its TESTFR act was not answered (open connections %d)", CS104_Slave_getOpenConnections(slave));
+            else if (admitted) { /* ... and it is still served a moment later (well inside every timeout) */
+                srv_tick(20); fn = frame_u(f, 0x07); sim_feed(p, f, fn); srv_tick(1); srv_tick(1);
+                if (!p->open) fail("STARVED", "a well-behaved new connection (admitted; TESTFR act, 20 ms, STARTDT act) was closed by the server within 25 ms (open connections %d)", CS104_Slave_getOpenConnections(slave));
+                else if (!has_frame(p, 0x0b)) fail("STARVED", "a well-behaved new connection got no STARTDT con (open connections %d)", CS104_Slave_getOpenConnections(slave));
+                else n_probe_ok++; }
+            else n_probe_ok++;
             sim_peer_close(p); srv_tick(1); continue; }
         srv_tick(prng_below(4) ? 1 : prng_range(1, 400));
     }
